@@ -34,6 +34,18 @@
 #include <fcppt/log/parameters.hpp>
 #include <fcppt/log/verbose.hpp>
 #include <fcppt/log/warning.hpp>
+#include <fcppt/log/default_level_streams.hpp>
+#include <fcppt/log/default_stream.hpp>
+#include <fcppt/log/level_from_string.hpp>
+#include <fcppt/log/level_input.hpp>
+#include <fcppt/log/level_output.hpp>
+#include <fcppt/log/level_to_string.hpp>
+#include <fcppt/log/parameters_no_function.hpp>
+#include <fcppt/log/format/chain.hpp>
+#include <fcppt/log/format/prefix.hpp>
+#include <fcppt/log/format/time_stamp.hpp>
+#include <fcppt/io/cerr.hpp>
+#include <fcppt/io/clog.hpp>
 #include <fcppt/log/format/default_level.hpp>
 #include <fcppt/log/format/function.hpp>
 #include <fcppt/log/format/inserter.hpp>
@@ -46,6 +58,7 @@
 #include <array>
 #include <atomic>
 #include <condition_variable>
+#include <iostream>
 #include <memory>
 #include <mutex>
 #include <sstream>
@@ -149,6 +162,16 @@ fl::format::optional_function object_formatter(std::string const &prefix)
       [prefix](fcppt::string const &text) -> fcppt::string { return prefix + text; }}};
 }
 
+// the message expression of a log call has a side effect, so that the documented laziness of the
+// FCPPT_LOG_* macros ("the construction of the log message is avoided altogether when debug is
+// not enabled") becomes observable
+int g_evals = 0;
+std::string const &counted(std::string const &m)
+{
+  ++g_evals;
+  return m;
+}
+
 // ---------------------------------------------------------------- sequential driver
 struct Op
 {
@@ -217,6 +240,10 @@ struct Seq
     vj::begin_call(pre.s);
     int ret = -1;
     bool rb = false;
+    bool acc_has = false, acc_same = false;
+    int acc_idx = -1;
+    std::string acc_text;
+    g_evals = 0;
     auto const oi = static_cast<std::size_t>(a.o);
     if (a.op == "set")
       ctx->set(to_location(a.loc), int_to_level(a.l));
@@ -225,7 +252,10 @@ struct Seq
     else if (a.op == "create")
     {
       objs[oi].reset();
-      fl::parameters params{fl::name{a.name}, object_formatter(a.fmt)};
+      // parameters.hpp / parameters_no_function.hpp: the two ways to make parameters
+      fl::parameters params = a.fmt.empty() && (a.o % 2 == 1)
+                                  ? fl::parameters_no_function(fl::name{a.name})
+                                  : fl::parameters{fl::name{a.name}, object_formatter(a.fmt)};
       if (a.kind == "ctx")
         objs[oi] = std::make_unique<fl::object>(fcppt::make_ref(*ctx), params);
       else if (a.kind == "loc")
@@ -238,26 +268,42 @@ struct Seq
     else if (a.op == "enabled")
       rb = objs[oi]->enabled(static_cast<fl::level>(a.l));
     else if (a.op == "log")
-      objs[oi]->log(static_cast<fl::level>(a.l), fl::out << a.msg);
+      objs[oi]->log(static_cast<fl::level>(a.l), fl::out << counted(a.msg));
     else if (a.op == "logm")
     {
       fl::object &ob = *objs[oi];
       switch (a.l)
       {
-      case 0: FCPPT_LOG_VERBOSE(ob, fl::out << a.msg) break;
-      case 1: FCPPT_LOG_DEBUG(ob, fl::out << a.msg) break;
-      case 2: FCPPT_LOG_INFO(ob, fl::out << a.msg) break;
-      case 3: FCPPT_LOG_WARNING(ob, fl::out << a.msg) break;
-      case 4: FCPPT_LOG_ERROR(ob, fl::out << a.msg) break;
-      default: FCPPT_LOG_FATAL(ob, fl::out << a.msg) break;
+      case 0: FCPPT_LOG_VERBOSE(ob, fl::out << counted(a.msg)) break;
+      case 1: FCPPT_LOG_DEBUG(ob, fl::out << counted(a.msg)) break;
+      case 2: FCPPT_LOG_INFO(ob, fl::out << counted(a.msg)) break;
+      case 3: FCPPT_LOG_WARNING(ob, fl::out << counted(a.msg)) break;
+      case 4: FCPPT_LOG_ERROR(ob, fl::out << counted(a.msg)) break;
+      default: FCPPT_LOG_FATAL(ob, fl::out << counted(a.msg)) break;
       }
+    }
+    else if (a.op == "acc")
+    {
+      // accessors of fcppt::log::object: formatter(), level_streams(), level_sink()
+      fl::object const &ob = *objs[oi];
+      fl::format::optional_function const &f = ob.formatter();
+      acc_has = f.has_value();
+      if (acc_has) acc_text = f.get_unsafe()(a.msg);
+      fl::level_stream_array const &ls = ob.level_streams();
+      acc_same = &ls == &ctx->level_streams().get();
+      fl::level_stream const &sk_ = ob.level_sink(static_cast<fl::level>(a.l));
+      acc_idx = -1;
+      for (int i = 0; i < 6; ++i)
+        if (&ls[static_cast<fl::level>(i)] == &sk_) acc_idx = i;
     }
     else
     {
       std::fprintf(stderr, "unknown op %s\n", a.op.c_str());
       std::exit(3);
     }
-    std::string rest = ",\"ret\":" + std::to_string(ret) + ",\"rb\":" + (rb ? "true" : "false") + ",\"out\":[";
+    std::string rest = ",\"ret\":" + std::to_string(ret) + ",\"rb\":" + (rb ? "true" : "false") + ",\"ev\":" +
+                       std::to_string(g_evals) + ",\"hasf\":" + (acc_has ? "true" : "false") + ",\"ft\":" + vj::cps(acc_text) +
+                       ",\"lss\":" + (acc_same ? "true" : "false") + ",\"si\":" + std::to_string(acc_idx) + ",\"out\":[";
     for (std::size_t i = 0; i < 6; ++i)
     {
       if (i) rest += ',';
@@ -339,12 +385,285 @@ struct Seq
       a.op = "enabled";
       return true;
     }
-    a.op = w < 94 ? "log" : "logm";
+    a.op = w < 87 ? "log" : (w < 96 ? "logm" : "acc");
     std::size_t const n = static_cast<std::size_t>(r.below(4));
     for (std::size_t i = 0; i < n; ++i) a.msg += static_cast<char>('m' + r.below(3));
     return true;
   }
 };
+
+// ---------------------------------------------------------------- independent call records
+// ("e":"rec"): the rest of fcppt.log behind the property - level names, default streams, formatter
+// functions and their composition, level_stream as a sink machine, parameters.  Judged by
+// LogTrace!TRec against LogFormat.tla.
+struct FmtSpec
+{
+  int k = 0; // 0 none, 1 default_level(l), 2 inserter(pre,suf), 3 caller function pre+text, 4 prefix(pre)
+  int l = 0;
+  std::string pre, suf;
+};
+
+fl::format::optional_function make_fmt(FmtSpec const &f)
+{
+  switch (f.k)
+  {
+  case 1: return fl::format::optional_function{fl::format::default_level(static_cast<fl::level>(f.l))};
+  case 2:
+    return fl::format::optional_function{
+        fl::format::inserter(fl::format::prefix_string{f.pre}, fl::format::suffix_string{f.suf})};
+  case 3: return object_formatter(f.pre);
+  case 4: return fl::format::optional_function{fl::format::prefix(fl::format::prefix_string{f.pre})};
+  default: return fl::format::optional_function{};
+  }
+}
+
+std::string fmt_json(FmtSpec const &f)
+{
+  return vj::J().kv("k", f.k).kv("l", f.l).raw("pre", vj::cps(f.pre)).raw("suf", vj::cps(f.suf)).str();
+}
+
+FmtSpec rnd_fmt(vj::Rng &r)
+{
+  FmtSpec f;
+  f.k = static_cast<int>(r.below(5));
+  f.l = static_cast<int>(r.below(6));
+  if (f.k == 3 && r.below(4) == 0) f.k = 0; // an empty caller prefix would be indistinguishable from none
+  static char const *const pres[] = {"A", "Bb", "<", "x y", "#"};
+  static char const *const sufs[] = {"", ">", "\n", "!!"};
+  if (f.k >= 2) f.pre = pres[r.below(5)];
+  if (f.k == 2) f.suf = sufs[r.below(4)];
+  return f;
+}
+
+int which_std_stream(fcppt::io::ostream const &s)
+{
+  return &s == &fcppt::io::clog() ? 0 : (&s == &fcppt::io::cerr() ? 1 : 2);
+}
+
+void rec_level_strings(std::string const &str)
+{
+  {
+    vj::J j;
+    j.kv("e", "rec").kv("f", "from_string").raw("s", vj::cps(str));
+    vj::begin_call(j.s);
+    int const r = level_to_int(fl::level_from_string(str));
+    vj::end_call(",\"r\":" + std::to_string(r) + "}");
+  }
+  if (!str.empty() && str.find_first_of(" \t\n") == std::string::npos)
+  {
+    vj::J j;
+    j.kv("e", "rec").kv("f", "input").raw("s", vj::cps(str));
+    vj::begin_call(j.s);
+    std::istringstream in(str);
+    fl::level lv = fl::level::verbose;
+    in >> lv;
+    bool const ok = !in.fail();
+    vj::end_call(std::string(",\"ok\":") + (ok ? "true" : "false") + ",\"r\":" + std::to_string(static_cast<int>(lv)) + "}");
+  }
+}
+
+void rec_level(int l)
+{
+  auto const lv = static_cast<fl::level>(l);
+  {
+    vj::J j;
+    j.kv("e", "rec").kv("f", "to_string").kv("l", l);
+    vj::begin_call(j.s);
+    std::string const r{fl::level_to_string(lv)};
+    vj::end_call(",\"s\":" + vj::cps(r) + "}");
+  }
+  {
+    vj::J j;
+    j.kv("e", "rec").kv("f", "output").kv("l", l);
+    vj::begin_call(j.s);
+    std::ostringstream o;
+    o << lv;
+    vj::end_call(",\"s\":" + vj::cps(o.str()) + "}");
+  }
+  {
+    vj::J j;
+    j.kv("e", "rec").kv("f", "default_stream").kv("l", l);
+    vj::begin_call(j.s);
+    int const w = which_std_stream(fl::default_stream(lv));
+    vj::end_call(",\"which\":" + std::to_string(w) + "}");
+  }
+}
+
+void rec_default_level_streams(int l, std::string const &msg)
+{
+  vj::J j;
+  j.kv("e", "rec").kv("f", "dls").kv("l", l).raw("msg", vj::cps(msg));
+  vj::begin_call(j.s);
+  fl::level_stream_array arr{fl::default_level_streams()};
+  fl::level_stream &ls = arr[static_cast<fl::level>(l)];
+  int const w = which_std_stream(ls.get());
+  bool const has = ls.formatter().has_value();
+  std::string const text = has ? ls.formatter().get_unsafe()(msg) : std::string();
+  vj::end_call(",\"which\":" + std::to_string(w) + ",\"has\":" + (has ? "true" : "false") + ",\"text\":" + vj::cps(text) + "}");
+}
+
+// a context with the default level streams; std::clog / std::cerr are redirected for the call
+void rec_default_log(int root, std::string const &name, int l, std::string const &msg)
+{
+  vj::J j;
+  j.kv("e", "rec").kv("f", "dlog").kv("root", root).raw("name", vj::cps(name)).kv("l", l).raw("msg", vj::cps(msg));
+  vj::begin_call(j.s);
+  std::ostringstream cl, ce;
+  std::streambuf *const old_clog = std::clog.rdbuf(cl.rdbuf());
+  std::streambuf *const old_cerr = std::cerr.rdbuf(ce.rdbuf());
+  {
+    fl::context c{int_to_level(root), fl::default_level_streams()};
+    fl::object o{fcppt::make_ref(c), fl::parameters_no_function(fl::name{name})};
+    o.log(static_cast<fl::level>(l), fl::out << msg);
+  }
+  std::clog.rdbuf(old_clog);
+  std::cerr.rdbuf(old_cerr);
+  vj::end_call(",\"clog\":" + vj::cps(cl.str()) + ",\"cerr\":" + vj::cps(ce.str()) + "}");
+}
+
+void rec_chain(FmtSpec const &p_, FmtSpec const &c, std::string const &t)
+{
+  vj::J j;
+  j.kv("e", "rec").kv("f", "chain").raw("p", fmt_json(p_)).raw("c", fmt_json(c)).raw("t", vj::cps(t));
+  vj::begin_call(j.s);
+  fl::format::optional_function const r = fl::format::chain(make_fmt(p_), make_fmt(c));
+  bool const has = r.has_value();
+  std::string const text = has ? r.get_unsafe()(t) : std::string();
+  vj::end_call(std::string(",\"has\":") + (has ? "true" : "false") + ",\"r\":" + vj::cps(text) + "}");
+}
+
+void rec_fmt(FmtSpec const &g, std::string const &t)
+{
+  vj::J j;
+  j.kv("e", "rec").kv("f", "fmt").raw("g", fmt_json(g)).raw("t", vj::cps(t));
+  vj::begin_call(j.s);
+  fl::format::optional_function const f = make_fmt(g);
+  std::string const text = f.has_value() ? f.get_unsafe()(t) : t;
+  vj::end_call(",\"r\":" + vj::cps(text) + "}");
+}
+
+void rec_time_stamp(std::string const &t)
+{
+  vj::J j;
+  j.kv("e", "rec").kv("f", "time_stamp").raw("t", vj::cps(t));
+  vj::begin_call(j.s);
+  std::string const text = fl::format::time_stamp()(t);
+  vj::end_call(",\"r\":" + vj::cps(text) + "}");
+}
+
+void rec_params(std::string const &name, FmtSpec const &g, bool nofn, std::string const &t)
+{
+  vj::J j;
+  j.kv("e", "rec").kv("f", "params").raw("name", vj::cps(name)).raw("g", fmt_json(g)).kv("nofn", nofn).raw("t", vj::cps(t));
+  vj::begin_call(j.s);
+  fl::parameters const prm = nofn ? fl::parameters_no_function(fl::name{name}) : fl::parameters{fl::name{name}, make_fmt(g)};
+  bool const has = prm.formatter().has_value();
+  std::string const text = has ? prm.formatter().get_unsafe()(t) : std::string();
+  vj::end_call(",\"rname\":" + vj::cps(prm.name().get()) + ",\"has\":" + (has ? "true" : "false") + ",\"r\":" + vj::cps(text) + "}");
+}
+
+// level_stream as a machine: constructor(sink 1, own formatter), then log / sink / get steps
+void rec_level_stream(vj::Rng &r)
+{
+  FmtSpec const own = rnd_fmt(r);
+  struct Step
+  {
+    int s; // 0 log, 1 sink, 2 get
+    FmtSpec add;
+    std::string msg;
+    int k;
+  };
+  std::vector<Step> steps;
+  std::size_t const n = 1 + static_cast<std::size_t>(r.below(5));
+  for (std::size_t i = 0; i < n; ++i)
+  {
+    Step st{static_cast<int>(r.below(3)), rnd_fmt(r), std::string(1, static_cast<char>('p' + r.below(3))), 1 + static_cast<int>(r.below(2))};
+    steps.push_back(st);
+  }
+  std::string sj = "[";
+  for (std::size_t i = 0; i < steps.size(); ++i)
+  {
+    if (i) sj += ',';
+    Step const &st = steps[i];
+    if (st.s == 0) sj += vj::J().kv("s", "log").raw("add", fmt_json(st.add)).raw("msg", vj::cps(st.msg)).str();
+    else if (st.s == 1) sj += vj::J().kv("s", "sink").kv("k", st.k).str();
+    else sj += vj::J().kv("s", "get").str();
+  }
+  sj += "]";
+  vj::J j;
+  j.kv("e", "rec").kv("f", "level_stream").raw("own", fmt_json(own)).raw("steps", sj);
+  vj::begin_call(j.s);
+  std::ostringstream s1, s2;
+  fl::level_stream ls{s1, make_fmt(own)};
+  std::string res = "[";
+  for (std::size_t i = 0; i < steps.size(); ++i)
+  {
+    if (i) res += ',';
+    Step const &st = steps[i];
+    int k = 0;
+    std::string text;
+    if (st.s == 0)
+    {
+      ls.log(fl::out << st.msg, make_fmt(st.add));
+      if (!s1.str().empty()) { k += 1; text = s1.str(); }
+      if (!s2.str().empty()) { k += 2; text = s2.str(); }
+      s1.str(std::string());
+      s2.str(std::string());
+    }
+    else if (st.s == 1)
+      ls.sink(st.k == 1 ? s1 : s2);
+    else
+      k = &ls.get() == &s1 ? 1 : (&ls.get() == &s2 ? 2 : 3);
+    res += vj::J().kv("k", k).raw("text", vj::cps(text)).str();
+  }
+  res += "]";
+  vj::end_call(",\"res\":" + res + "}");
+}
+
+void emit_exhaustive_recs()
+{
+  char const *const names[] = {"verbose", "debug", "info", "warning", "error", "fatal"};
+  for (int l = 0; l < 6; ++l) rec_level(l);
+  for (auto const *n : names)
+  {
+    std::string const s{n};
+    rec_level_strings(s);
+    for (std::size_t n = 1; n < s.size(); ++n) rec_level_strings(s.substr(0, n));
+    rec_level_strings(s + "s");
+    rec_level_strings(s + " ");
+    rec_level_strings(" " + s);
+    std::string up = s;
+    up[0] = static_cast<char>(up[0] - 32);
+    rec_level_strings(up);
+  }
+  for (auto const *n : {"", "fcppt_maximum", "size", "none", "0", "5", "disabled", "level::debug"}) rec_level_strings(n);
+  for (int l = 0; l < 6; ++l) rec_default_level_streams(l, "m");
+  for (int root = 0; root <= 6; ++root)
+    for (int l = 0; l < 6; ++l) rec_default_log(root, "nm", l, "hi");
+  rec_time_stamp("");
+  rec_time_stamp("tick");
+}
+
+void emit_random_recs(vj::Rng &r)
+{
+  static char const *const texts[] = {"", "t", "two words", "x\n"};
+  std::string const t = texts[r.below(4)];
+  switch (r.below(6))
+  {
+  case 0: rec_chain(rnd_fmt(r), rnd_fmt(r), t); break;
+  case 1: rec_fmt(rnd_fmt(r), t); break;
+  case 2: rec_params(std::string(1, static_cast<char>('a' + r.below(3))), rnd_fmt(r), r.below(3) == 0, t); break;
+  case 3: rec_level_stream(r); break;
+  case 4: rec_default_level_streams(static_cast<int>(r.below(6)), t); break;
+  default:
+  {
+    std::string w;
+    std::size_t const n = static_cast<std::size_t>(r.below(8));
+    for (std::size_t i = 0; i < n; ++i) w += "debuginfowarnerrfatlvs"[r.below(22)];
+    rec_level_strings(w);
+  }
+  }
+}
 
 Op op_from_json(vj::V const &e)
 {
@@ -375,10 +694,6 @@ constexpr std::memory_order seq_order = std::memory_order_seq_cst;
 #endif
 
 std::atomic<long> global_seq{0};
-// start line: after the blocking barrier the threads additionally spin until all of them have
-// arrived, so that the calls of a window really overlap (a condition variable wakes the threads
-// up tens of microseconds apart, longer than a whole window takes)
-std::atomic<long> start_line{0};
 
 struct Barrier
 {
@@ -416,7 +731,7 @@ constexpr int OPT = 2; // object slots per thread
 
 struct Shared
 {
-  std::vector<std::string> names{"a", "b"};
+  std::vector<std::string> names{"a", "b", "c"};
   std::vector<path> univ = make_universe(names, 3);
   sinks sk;
   std::unique_ptr<fl::context> ctx;
@@ -426,6 +741,9 @@ struct Shared
   std::vector<std::vector<Call>> calls; // per thread, current window
 };
 
+bool no_focus = false;       // experiment switch (env C19_NOFOCUS=1)
+long jitter_max = 400;       // experiment switch (env C19_JITTER=n): longest random spin between calls
+
 void spin(vj::Rng &r)
 {
   auto const k = r.below(8);
@@ -433,12 +751,23 @@ void spin(vj::Rng &r)
   else if (k == 1)
   {
     volatile unsigned x = 0;
-    auto const n = r.below(400);
+    auto const n = r.below(static_cast<std::uint64_t>(jitter_max));
     for (std::uint64_t i = 0; i < n; ++i) x = x + 1U;
   }
 }
 
-void thread_window(Shared &sh, int t, vj::Rng &r, int ncalls)
+// call line: before EVERY call all threads of the run spin until each of them has arrived, so that the
+// k-th calls of all threads are issued at (nearly) the same instant (relaxed: no happens-before
+// edge is added, also not for ThreadSanitizer)
+std::atomic<long> call_line{0};
+std::atomic<long> call_line_timeouts{0};
+bool per_call_line = false; // experiment switch (env C19_CALL_LINE=1): align every call, not only the first of a window
+
+// focus: empty = free window (random locations); otherwise a path P of depth 3 and every call of
+// the window works on the chain of prefixes of P: set on shallow prefixes races with get / enabled
+// on deep descendants and with object creation below an ancestor (the find_location /
+// find_child two-step window)
+void thread_window(Shared &sh, int t, vj::Rng &r, int ncalls, path const &focus, long call_base)
 {
   auto &mine = sh.objs[static_cast<std::size_t>(t)];
   auto &dep = sh.depth[static_cast<std::size_t>(t)];
@@ -459,7 +788,38 @@ void thread_window(Shared &sh, int t, vj::Rng &r, int ncalls)
     for (int i = 0; i < OPT; ++i) if (mine[static_cast<std::size_t>(i)]) bound.push_back(i);
     auto w = r.below(100);
     if (bound.empty() && w >= 75) w = r.below(75);
-    if (w < 35)
+    auto prefix_of_focus = [&](std::size_t d) { return path(focus.begin(), focus.begin() + static_cast<long>(d)); };
+    if (!focus.empty() && w < 75)
+    {
+      if (w < 35)
+      {
+        a.op = "set";
+        a.loc = prefix_of_focus(static_cast<std::size_t>(std::min(r.below(3), r.below(3))));
+        a.l = static_cast<int>(r.below(7));
+      }
+      else if (w < 55)
+      {
+        a.op = "get";
+        a.loc = prefix_of_focus(3 - static_cast<std::size_t>(std::min(r.below(3), r.below(3))));
+      }
+      else
+      {
+        a.op = "create";
+        int const slot = static_cast<int>(r.below(OPT));
+        a.o = t * OPT + slot + 1;
+        std::size_t const d = static_cast<std::size_t>(r.below(3));
+        a.name = focus[d];
+        if (d == 0 && r.coin())
+          a.kind = "ctx";
+        else
+        {
+          a.kind = "loc";
+          a.loc = prefix_of_focus(d);
+        }
+        dep[static_cast<std::size_t>(slot)] = d + 1;
+      }
+    }
+    else if (w < 35)
     {
       a.op = "set";
       a.loc = rnd_path(3);
@@ -511,6 +871,14 @@ void thread_window(Shared &sh, int t, vj::Rng &r, int ncalls)
     fl::location const loc = to_location(a.loc);
     fl::optional_level const lvl = int_to_level(a.l);
     std::size_t const slot = a.o > 0 ? static_cast<std::size_t>((a.o - 1) % OPT) : 0;
+    if (c == 0 || per_call_line)
+    {
+      long const target = call_base + static_cast<long>((per_call_line ? c : 0) + 1) * sh.nt;
+      call_line.fetch_add(1, std::memory_order_relaxed);
+      long spins = 0;
+      while (call_line.load(std::memory_order_relaxed) < target && ++spins < 400000) {}
+      if (spins >= 400000) call_line_timeouts.fetch_add(1, std::memory_order_relaxed);
+    }
     spin(r);
     if (a.op == "set")
     {
@@ -638,22 +1006,24 @@ void run_threads(std::uint64_t seed, long run, int windows, int maxcalls)
   }
   write_quiescent(sh, "q");
   Barrier bar(sh.nt);
-  long const start_base = start_line.load();
+  long const call_start = call_line.load();
   std::vector<std::thread> ths;
   for (int t = 0; t < sh.nt; ++t)
   {
-    ths.emplace_back([&sh, &bar, t, seed, run, windows, maxcalls, start_base] {
+    ths.emplace_back([&sh, &bar, t, seed, run, windows, maxcalls, call_start] {
       vj::Rng r(seed * 1000003ULL + static_cast<std::uint64_t>(run) * 64ULL + static_cast<std::uint64_t>(t) + 17ULL);
+      long call_base = call_start;
       for (int w = 0; w < windows; ++w)
       {
+        // the shape of the window is a function of (seed, run, window), identical in all threads
+        vj::Rng wr(seed * 31ULL + static_cast<std::uint64_t>(run) * 1009ULL + static_cast<std::uint64_t>(w) * 7ULL + 3ULL);
+        int const ncalls = 1 + static_cast<int>(wr.below(static_cast<std::uint64_t>(maxcalls)));
+        path focus;
+        if (wr.below(3) != 0 && !no_focus)
+          for (int i = 0; i < 3; ++i) focus.push_back(sh.names[static_cast<std::size_t>(wr.below(sh.names.size()))]);
         bar.wait();
-        {
-          long const target = start_base + static_cast<long>(w + 1) * sh.nt;
-          start_line.fetch_add(1, std::memory_order_relaxed);
-          long spins = 0;
-          while (start_line.load(std::memory_order_relaxed) < target && ++spins < 2000000) {}
-        }
-        thread_window(sh, t, r, 1 + static_cast<int>(r.below(static_cast<std::uint64_t>(maxcalls))));
+        thread_window(sh, t, r, ncalls, focus, call_base);
+        call_base += static_cast<long>(per_call_line ? ncalls : 1) * sh.nt;
         bar.wait();
         if (t == 0)
         {
@@ -685,6 +1055,7 @@ int main(int argc, char **argv)
     long const hist = std::strtol(argv[4], nullptr, 10);
     long const maxlen = std::strtol(argv[5], nullptr, 10);
     Seq s;
+    emit_exhaustive_recs();
     for (long h = 0; h < hist; ++h)
     {
       vj::Rng r(seed * 1000003ULL + static_cast<std::uint64_t>(h));
@@ -708,6 +1079,7 @@ int main(int argc, char **argv)
         if (!s.gen(r, a)) break;
         s.exec(a);
       }
+      for (int i = 0; i < 4; ++i) emit_random_recs(r);
     }
     for (auto &o : s.objs) o.reset();
     vj::close();
@@ -763,7 +1135,11 @@ int main(int argc, char **argv)
     long const runs = std::strtol(argv[4], nullptr, 10);
     int const windows = static_cast<int>(std::strtol(argv[5], nullptr, 10));
     int const maxcalls = static_cast<int>(std::strtol(argv[6], nullptr, 10));
+    per_call_line = std::getenv("C19_CALL_LINE") != nullptr;
+    no_focus = std::getenv("C19_NOFOCUS") != nullptr;
+    if (char const *j = std::getenv("C19_JITTER")) jitter_max = std::strtol(j, nullptr, 10);
     for (long run = 0; run < runs; ++run) run_threads(seed, run, windows, maxcalls);
+    std::fprintf(stderr, "call-line timeouts: %ld of %ld arrivals\n", call_line_timeouts.load(), call_line.load());
     vj::close();
     return 0;
   }
